@@ -1469,3 +1469,24 @@ func (c *Ctx) recursionRule(rule string) {
 	r.Floor(rule, "recursive call edges examined", nEdges, 5)
 	r.Floor(rule, "by-value struct descents among them", nDescents, 2)
 }
+
+// literalExprRule (C14): the text of a :literal notation is an expression before it is accepted.
+func (c *Ctx) literalExprRule(rule string) {
+	r := c.R
+	r.Rule(rule, "a :literal text becomes a LiteralSetter only on the nil-error edge of go/parser.ParseExpr of that very text: it is copied into the function as it is, and what is not an expression would otherwise be reported by the import optimizer – with a position in the output file, which is then never written (C14: the message for a notation error starts with the position of the notation)")
+	n := 0
+	for _, s := range c.CallsTo(pOpt + "NewLiteralSetter") {
+		if p := pkgOf(s.Fn); p == nil || p.Path() != mod+"/pkg/parser" {
+			continue
+		}
+		n++
+		text := c.O.Of(s.Args()[1]).String()
+		parsed := c.M(true, isNilCmp(func(x *core.Term) bool {
+			return x.Kind == "extract" && x.Name == "1" && x.Args[0].IsCallTo("go/parser.ParseExpr") && x.Args[0].Args[0].String() == text
+		}))
+		d := c.ReachOf(s.Instr)
+		r.Check(rule, sprintf("%s:literal%d:is-an-expression", FnKey(s.Fn), n), c.Pos(s.Pos()), d.Implies(parsed),
+			"a :literal text is accepted without having been parsed as a Go expression: `:literal Name )(` fails later in goimports with a position in a file that is never written; reach: "+c.failing(d, parsed))
+	}
+	r.Floor(rule, "LiteralSetter constructions in the parser", n, 1)
+}
